@@ -1144,30 +1144,44 @@ package keyvalue
 //@   ensures "inv" fsMem(fs)
 //@   nopanic
 
-// Rename: only the name gate, the error shape of the gate and the file-system invariant are under contract (the
-// rename semantics proper - precedence of failure conditions, directory moves - are not decided here).
+// Rename. Under contract: the name gate, every refusal that protects the tree (missing source, destination is a
+// directory, destination's parent missing or not a directory, directory into its own subtree) and the complete effect
+// of renaming a regular file. The recursive move of a directory is covered by no-panic, frames and the store
+// invariant only (its effect on the tree is not decided: it needs the exact listing of C16).
+//@ spec memSameExcept2(fs *FS, a string, b string) := forall(k, string, implies(k != a && k != b, kvHas(fs, k) == old(kvHas(fs, k)) && kvRec(fs, k) == old(kvRec(fs, k))))
+//@ spec rnValid(oldname string, newname string) := VP(oldname) && VP(newname)
+//@ spec rnSrcFile(fs *FS, oldname string) := kvHas(fs, oldname) && !memIsDir(fs, oldname)
+//@ spec rnSrcDir(fs *FS, oldname string) := kvHas(fs, oldname) && memIsDir(fs, oldname)
+//@ spec rnDestParentOK(fs *FS, newname string) := kvHas(fs, pdir(newname)) && memIsDir(fs, pdir(newname))
+//@ spec linkErr(err error, oldname string, newname string) := isLinkError(err) && oldOf(err) == oldname && newOf(err) == newname
+
 //@ func (fs *FS) Rename(oldname string, newname string) (err error)
-//@   props C04 C05
+//@   props C01 C03 C04 C05
 //@   requires fsMem(fs)
+//@   use dirValid(newname)
+//@   use childDirAll(oldname)
 //@   dispatch hackpadfs.FileInfo fileInfo
 //@   dispatch FileRecord *fileData mem.fileRecord
 //@   dispatch Transaction *mem.transaction
 //@   modifies world(), mapOf(ms(fs).records), held(ms(fs).mu)
 //@   loop 1 modifies mapOf(ms(fs).records), held(ms(fs).mu), world()
 //@   loop 1 invariant "inv" fsMem(fs) && VP(oldname) && VP(newname) && rangeindex >= -1 && rangeindex < max(len(files), 1) && (len(files) > 0 || rangeindex == -1)
-//@   ensures "gate" [C04 C05] implies(!VP(oldname) || !VP(newname), isLinkError(err) && errIs(err, hackpadfs.ErrInvalid) && oldOf(err) == oldname && newOf(err) == newname && memSame(fs) && world() == old(world()))
+//@   ensures "gate" [C04 C05] implies(!VP(oldname) || !VP(newname), linkErr(err, oldname, newname) && errIs(err, hackpadfs.ErrInvalid) && memSame(fs) && world() == old(world()))
+//@   ensures "missing-source" [C01 C05] implies(rnValid(oldname, newname) && !old(kvHas(fs, oldname)), linkErr(err, oldname, newname) && errIs(err, hackpadfs.ErrNotExist) && memSame(fs))
+//@   ensures "same-file" [C01] implies(rnValid(oldname, newname) && old(rnSrcFile(fs, oldname)) && oldname == newname, err == nil && memSame(fs))
+//@   ensures "dest-is-dir" [C01 C03 C05] implies(rnValid(oldname, newname) && old(kvHas(fs, oldname)) && old(kvHas(fs, newname)) && old(memIsDir(fs, newname)) && !(oldname == newname && !old(memIsDir(fs, oldname))),
+//@                     linkErr(err, oldname, newname) && errIs(err, hackpadfs.ErrExist) && memSame(fs))
+//@   ensures "into-subtree" [C01 C03 C05] implies(rnValid(oldname, newname) && old(rnSrcDir(fs, oldname)) && !old(kvHas(fs, newname)) && hasPrefix(newname, oldname + "/"),
+//@                     linkErr(err, oldname, newname) && errIs(err, hackpadfs.ErrInvalid) && memSame(fs))
+//@   ensures "no-parent" [C01 C03 C05] implies(rnValid(oldname, newname) && old(kvHas(fs, oldname)) && oldname != newname && !old(kvHas(fs, newname)) && !hasPrefix(newname, oldname + "/") && !old(kvHas(fs, pdir(newname))),
+//@                     linkErr(err, oldname, newname) && errIs(err, hackpadfs.ErrNotExist) && memSame(fs))
+//@   ensures "parent-not-dir" [C01 C03 C05] implies(rnValid(oldname, newname) && old(kvHas(fs, oldname)) && oldname != newname && !(old(kvHas(fs, newname)) && old(memIsDir(fs, newname))) &&
+//@                     !(old(memIsDir(fs, oldname)) && (old(kvHas(fs, newname)) || hasPrefix(newname, oldname + "/"))) && old(kvHas(fs, pdir(newname))) && !old(memIsDir(fs, pdir(newname))),
+//@                     linkErr(err, oldname, newname) && errIs(err, hackpadfs.ErrNotDir) && memSame(fs))
+//@   ensures "file-moved" [C01 C03] implies(rnValid(oldname, newname) && old(rnSrcFile(fs, oldname)) && oldname != newname && !(old(kvHas(fs, newname)) && old(memIsDir(fs, newname))) && old(rnDestParentOK(fs, newname)),
+//@                     err == nil && !kvHas(fs, oldname) && kvHas(fs, newname) && memSameExcept2(fs, oldname, newname) && isType(kvRec(fs, newname), mem.fileRecord) &&
+//@                     memRec(fs, newname).mode == old(memRec(fs, oldname).mode) && memRec(fs, newname).data == old(memRec(fs, oldname).data) && memRec(fs, newname).modTime == old(memRec(fs, oldname).modTime))
+//@   ensures "tree-file" [C03] implies(old(treeInv(fs)) && !old(rnSrcDir(fs, oldname)), treeInv(fs))
+//@   ensures "mem-world" world() == old(world())
 //@   ensures "inv" fsMem(fs)
-//@   nopanic
-
-// NewFS: the root directory is created if the store does not hold one.
-//@ func NewFS(store Store) (fs *FS, err error)
-//@   props C01 C03
-//@   requires store != nil && storeUnlocked(store) && (isType(store, *mem.store) || !implements(store, TransactionStore))
-//@   modifies world(), mapOf(memStoreOf(store).records)
-//@   ensures "wraps" fs != nil && fresh(fs) && fs.store != nil && fsStore(fs) == store
-//@   ensures "root" [C03] implies(isMem(fs) && err == nil, kvHas(fs, ".") && implies(!old(in(".", dom(memStoreOf(store).records))), memIsDir(fs, ".")) && memSameExcept(fs, "."))
-//@   ensures "tree" [C03] implies(isMem(fs) && err == nil && forall(k, string, !old(in(k, dom(memStoreOf(store).records)))), treeInv(fs))
-//@   ensures "fresh-store" [C03] implies(isMem(fs) && !old(in(".", dom(memStoreOf(store).records))), err == nil)
-//@   ensures "mem-world" implies(isMem(fs), world() == old(world()))
-//@   ensures "inv" fsInv(fs)
 //@   nopanic
